@@ -2212,6 +2212,76 @@ def mutated_results(rng):
     return cases
 
 
+def struct_containers(rng):
+    """containers of structs (map[string]S, []S, map[string][]S, []map[string]S, map of maps, and
+    their pointer forms): >= 3 elements whose supplied OPTIONAL member sets differ pairwise (element
+    i supplies optional member i only; alternatives under optional=!dep; dependency pairs; nested
+    structs, slices and maps as members), slices in both orders; every member of every element is
+    compared (an optional member the element does not supply is zero) — per-element state that is
+    not reset between elements shows up as a member nobody supplied (seeded C08-8)"""
+    cases = []
+    i, st_ = P("int"), P("string")
+    S = [F("a", i),                                                        # required everywhere
+         F("o1", i, O(opt=True, range=R("[1:9]"))), F("o2", st_, O(opt=True, options=["p", "q"])), F("o3", Ptr(i), O(opt=True)),
+         F("x", i, O(opt=True, dep="y", neg=True)), F("y", st_, O(opt=True)),            # exactly one of x / y
+         F("p", i, O(opt=True, dep="q")), F("q", i, O(opt=True)),                        # both or neither
+         F("n", St(F("u", i, O(opt=True)), F("v", st_, O(opt=True))), O(opt=True)),
+         F("l", Sl(i), O(opt=True)), F("m", Mp(st_), O(opt=True)), F("d", i, O(**{"def": "4"}))]
+
+    def elem(which, alt):
+        """the element that supplies the optional members named in `which` (and x or y)"""
+        pairs = [("a", dn(str(1 + len(which))))]
+        vals = {"o1": dn("5"), "o2": ds("p"), "o3": dn("7"), "n": dobj([("u", dn("3"))] if alt == "x" else [("v", ds("w"))]),
+                "l": {"a": [dn("1"), dn("2")]}, "m": dobj([("k", ds("z"))]), "d": dn("6")}
+        for k in which:
+            if k == "pq":
+                pairs += [("p", dn("2")), ("q", dn("3"))]
+            else:
+                pairs.append((k, vals[k]))
+        pairs.append(("x", dn("8")) if alt == "x" else ("y", ds("alt")))
+        return dobj(pairs)
+
+    menus = [["o1"], ["o2"], ["o3"], ["pq"], ["n"], ["l"], ["m"], ["d"], [], ["o1", "o2", "o3", "pq", "n", "l", "m", "d"]]
+    containers = [
+        ("map", lambda T: Mp(T), lambda es: dobj([("k%d" % j, e) for j, e in enumerate(es)])),
+        ("slice", lambda T: Sl(T), lambda es: {"a": es}),
+        ("map*", lambda T: Mp(Ptr(T)), lambda es: dobj([("k%d" % j, e) for j, e in enumerate(es)])),
+        ("slice*", lambda T: Sl(Ptr(T)), lambda es: {"a": es}),
+        ("mapslice", lambda T: Mp(Sl(T)), lambda es: dobj([("g1", {"a": es[:2]}), ("g2", {"a": es[2:]})])),
+        ("slicemap", lambda T: Sl(Mp(T)), lambda es: {"a": [dobj([("k%d" % j, e) for j, e in enumerate(es[:2])]),
+                                                            dobj([("k%d" % j, e) for j, e in enumerate(es[2:])])]}),
+        ("mapmap", lambda T: Mp(Mp(T)), lambda es: dobj([("g1", dobj([("k%d" % j, e) for j, e in enumerate(es[:2])])),
+                                                         ("g2", dobj([("k%d" % j, e) for j, e in enumerate(es[2:])]))])),
+        ("field", lambda T: St(F("c1", T), F("c2", T), F("c3", Ptr(T))), lambda es: dobj([("c1", es[0]), ("c2", es[1]), ("c3", es[2])])),
+    ]
+    n = 0
+    for cname, mkT, mkD in containers:
+        for r in range(6):
+            n += 1
+            menu = rng.sample(menus, 4)
+            alts = [rng.choice("xy") for _ in menu]
+            if len(set(alts)) == 1:
+                alts[0] = "y" if alts[0] == "x" else "x"
+            es = [elem(w, a) for w, a in zip(menu, alts)]
+            for order in ((es, list(reversed(es))) if "slice" in cname else (es,)):
+                for mode in ("json", "key", "httpx-json") if r < 2 else (rng.choice(["json", "key", "jsonmap", "keyvaluer", "yaml", "toml"]),):
+                    doc = dobj([("c", mkD(copy.deepcopy(order)))])
+                    if mode in ("yaml", "toml") and not tame(doc):
+                        mode = "json"
+                    t = St(F("c", mkT(St(*copy.deepcopy(S)))))
+                    cases.append(finish({"mode": mode, "type": t, "doc": doc, "intent": "struct-containers", "block": n % 2 == 0}))
+    # embedded structs as elements' members, and elements that fail a check after an earlier element set a member
+    E = [F("a", i), A(St(F("e1", i, O(opt=True)), F("e2", st_, O(opt=True))), False), A(Ptr(St(F("f1", i), F("f2", st_, O(opt=True)))), True)]
+    for cname, mkT, mkD in containers[:4]:
+        es = [dobj([("a", dn("1")), ("e1", dn("2"))]), dobj([("a", dn("2")), ("e2", ds("s")), ("f1", dn("3"))]),
+              dobj([("a", dn("3")), ("f1", dn("4")), ("f2", ds("t"))]), dobj([("a", dn("4"))])]
+        for order in (es, list(reversed(es))):
+            for mode in ("json", "key"):
+                cases.append(finish({"mode": mode, "type": St(F("c", mkT(St(*copy.deepcopy(E))))), "doc": dobj([("c", mkD(copy.deepcopy(order)))]),
+                                     "intent": "struct-containers"}))
+    return cases
+
+
 def depchains(rng):
     """optional=dep / optional=!dep chains and cycles over three fields, self-dependencies,
     dependencies on keys that no field has, on dotted keys, on "-"; every subset of supplied fields"""
@@ -2555,6 +2625,7 @@ class C08(Property):
             cases += zeros(rng)
             cases += slice_defaults(rng)
             cases += depchains(rng)
+            cases += struct_containers(rng)
             cases += decimal_bounds(rng)[:1200 if not big else 100000]
             cases += pointer_containers(rng)
             cases += slice_strings(rng)
